@@ -223,10 +223,10 @@ Next == x' = x
                     for nthread, nparts in ((1, None), (2, None), (4, None), (3, 2), (16, None), (2, max(2, 2 * (n1d // 6)))):
                         try:
                             g2 = tsc_parallel(pos.copy(), base.copy(), box, weights=None if w is None else w.copy(), nthread=nthread, npartition=nparts,
-                                              coord=coord, sort=bool(rep % 2), offset=off)
+                                              coord=coord, sort=bool((rep // 2) % 2), offset=off)
                         except ValueError:
                             continue
-                        compare('tsc_parallel', kind, shape, box, ms, wl, o, g2, base=base, info=f'nthread={nthread} npartition={nparts} coord={coord} sort={bool(rep % 2)}')
+                        compare('tsc_parallel', kind, shape, box, ms, wl, o, g2, base=base, info=f'nthread={nthread} npartition={nparts} coord={coord} sort={bool((rep // 2) % 2)}')
             else:
                 g = base.copy()
                 cic_serial(pos, g, box, weights=w)
